@@ -9,6 +9,20 @@ open Bartiq Sexp
 
 def errSexp (e : Err) : Sexp := l [a "err", a e.kind, a (e.msg.replace " " "_" |>.replace "(" "[" |>.replace ")" "]")]
 
+def pointOfSexp : Sexp → Option (String × Rat)
+  | .list [.atom n, .atom p, .atom q] => do
+      let p ← p.toInt?; let q ← q.toNat?
+      if q = 0 then none else some (n, mkRat p q)
+  | _ => none
+
+def optRatSexp : Option Rat → Sexp
+  | none => a "_"
+  | some q => l [a "q", a (toString q.num), a (toString q.den)]
+
+partial def nvalSexp (nv : NVal Rat) : Sexp :=
+  l [a "node", a nv.name, l (nv.ports.map fun p => l [a p.1, optRatSexp p.2.2]),
+     l (nv.resources.map fun r => l [a r.1, a r.2.1.name, optRatSexp r.2.2]), l (nv.children.map nvalSexp)]
+
 def genTables : Tables :=
   { binOps := Generated.binOpTable, unaryOps := Generated.unaryOpTable,
     builtins := Generated.builtinNames, specialParams := Generated.specialParams }
@@ -70,6 +84,21 @@ def respond (line : String) : String :=
       match compileRoutineWith Generated.defaultStages Cmp.poly (skip == "1") r with
       | .ok c => Sexp.toString (l [a "ok", c.toSexp])
       | .error e => Sexp.toString (errSexp e)
+  | some (.atom "denote" :: .atom skip :: r :: pt :: _) =>
+    -- value-level reading of the preprocessed routine at an exact rational point: (denote <skip> <routine> ((name p q) ...))
+    match Routine.ofSexp r, listOfSexp pointOfSexp pt with
+    | some r, some pt =>
+      let top : Env Rat := fun x => (pt.find? (·.1 = x)).map (·.2)
+      (match (do
+          let _ ← (if skip == "1" then pure () else verify r)
+          let r ← preprocessWith Generated.defaultStages r
+          sortTree r : Except Err Routine) with
+       | .ok r' =>
+         (match denoteV Alg.rat top [] r' with
+          | some nv => Sexp.toString (l [a "ok", nvalSexp nv])
+          | none => "(err denote)")
+       | .error e => Sexp.toString (errSexp e))
+    | _, _ => "(bad-request denote)"
   | some (.atom "evaluate" :: c :: asg :: _) =>
     match CRoutine.ofSexp c, listOfSexp localOfSexp asg with
     | some c, some asg =>
